@@ -255,7 +255,21 @@ def run(eng, rep) -> None:
     psites = [cs for cs in cg.sites_in(f) if any(x.endswith("Lark.parse") for x in cs.externals)]
     if tsites and psites and tsites[0].node.args:
         ta = tsites[0].node.args[0]
-        okt = isinstance(ta, ast.Name) and any(v is psites[0].node for k, v, st in defs.values(ta.id))
+        def reaches_parse(e, seen, depth=0) -> bool:
+            """e evaluates to the parse result, possibly wrapped/unwrapped on the way (Ok(..), .attempt(), .unwrap()) and bound to locals"""
+            if depth > 6:
+                return False
+            if any(x is psites[0].node for x in ast.walk(e)):
+                return True
+            for nm_ in [x.id for x in ast.walk(e) if isinstance(x, ast.Name) and isinstance(x.ctx, ast.Load)]:
+                if nm_ in seen:
+                    continue
+                seen.add(nm_)
+                for k_, v_, st_ in defs.values(nm_):
+                    if v_ is not None and reaches_parse(v_, seen, depth + 1):
+                        return True
+            return False
+        okt = isinstance(ta, ast.Name) and reaches_parse(ta, set())
         rep.check(okt, "R20.2", f.file, f.qual, "transform(%s)" % norm(ta, 30), "the imported module's parse tree is what is transformed", "the tree transformed is not the parse of the imported module")
     # ---- R20.4 ----------------------------------------------------------------------
     msites = [cs for cs in cg.sites_in(f) if merge.qual in cs.callees]
